@@ -232,4 +232,11 @@ theorem sem_rest (ρ : Env) : ∀ (rest : Rest) (pty : Ty) (accE : Expr) (acc v 
                  · cases h)
 end
 
+/-- parentheses do not change the C++ value -/
+theorem denoteCpp_strip (ρ : Env) : ∀ e : Expr, denoteCpp ρ (strip e) = denoteCpp ρ e
+  | .atom _ => rfl
+  | .paren e => by simp only [strip, denoteCpp, denoteCpp_strip ρ e]
+  | .pre o e => by simp only [strip, denoteCpp, denoteCpp_strip ρ e]
+  | .bin o l r => by simp only [strip, denoteCpp, denoteCpp_strip ρ l, denoteCpp_strip ρ r]
+
 end Tranp.Emit
